@@ -11,7 +11,7 @@ Extraction "model.ml" extraction_anchor json_eqb execute find_entity doc_size
   tv2_static_b plan2_static_b field2_static_b fetch2_static_b order_ok_b
   univ2_contract_b ent_contract_b univ_ok_b key_consistent
   tv3_static_b rfield3_static_b pt_static_b item_static_b fetches_static_b univ3_contract_b univ_contract_b lists_ok_b ds_need
-  client_doc3 model_requests3 model_requests3s gateway3 tv4_static_b univ4_contract_b types_ok_b flatten type_applies abs_fuel find_alt flat_is flat_merged_is has_tn_sel item_key drop_tn gmerge mono_client3 src_proj pt_proj pt_client item_unaliased fetch_keys field_ty_ok plain_field sel_nospread
+  client_doc3 model_requests3 model_requests3s gateway3 tv4_static_b univ4_contract_b types_ok_b flatten type_applies abs_fuel find_alt flat_is flat_merged_is has_tn_sel item_key drop_tn gmerge tv5_static_b univ5_contract_b nkey_contract_b key_static_b fetch_kl fetch_kn fetch_nnames mono_client3 src_proj pt_proj pt_client item_unaliased fetch_keys field_ty_ok plain_field sel_nospread
   client_doc2 model_requests2 gateway2 mono_client2 mono_ab2 plan2_fuel
   repr_from key_names pvars root_sel2 d2_key d2_selA d2_selB sub_at shape_ty
   dedup collect_reprs
